@@ -34,7 +34,7 @@ import (
 
 // c08srvCfg is the server configuration of a case.
 type c08srvCfg struct {
-	Sched   string `json:"sched"`              // "9218" (default), "rr", "7540", "random"
+	Sched   string `json:"sched"`              // "9218" (default), "rr", "7540", "7540t" (RFC 7540 priorities with ThrottleOutOfOrderWrites), "random"
 	ConnWin int32  `json:"conn_win,omitempty"` // Server.MaxUploadBufferPerConnection (0 = default 1<<20)
 	StrWin  int32  `json:"str_win,omitempty"`  // Server.MaxUploadBufferPerStream (0 = default 1<<20)
 }
@@ -168,6 +168,18 @@ func c08srvSched(name string) func() WriteScheduler {
 		return NewRoundRobinWriteScheduler
 	case "7540":
 		return func() WriteScheduler { return NewPriorityWriteScheduler(nil) }
+	case "7540t":
+		// the RFC 7540 priority scheduler with its documented defaults plus
+		// out-of-order write throttling: the one configuration reachable
+		// through Server.NewWriteScheduler whose Pop hands
+		// FrameWriteRequest.Consume a byte budget other than MaxInt32
+		return func() WriteScheduler {
+			return NewPriorityWriteScheduler(&PriorityWriteSchedulerConfig{
+				MaxClosedNodesInTree:     10,
+				MaxIdleNodesInTree:       10,
+				ThrottleOutOfOrderWrites: true,
+			})
+		}
 	case "random":
 		return NewRandomWriteScheduler
 	}
@@ -312,6 +324,20 @@ func (e *c08srvEnv) headers(id uint32, endStream bool, extra ...string) bool {
 		BlockFragment: e.st.encodeHeader(kv...),
 		EndStream:     endStream,
 		EndHeaders:    true,
+	})
+	return !e.writeErr(err)
+}
+
+// headersDep sends a GET request HEADERS frame for stream id (path "/<id>")
+// carrying the RFC 7540 §5.3 priority field "depends on stream dep, default
+// weight, not exclusive".
+func (e *c08srvEnv) headersDep(id, dep uint32) bool {
+	err := e.st.fr.WriteHeaders(HeadersFrameParam{
+		StreamID:      id,
+		BlockFragment: e.st.encodeHeader(":method", "GET", ":path", "/"+strconv.Itoa(int(id))),
+		EndStream:     true,
+		EndHeaders:    true,
+		Priority:      PriorityParam{StreamDep: dep, Weight: 15},
 	})
 	return !e.writeErr(err)
 }
